@@ -80,7 +80,11 @@ def _mk(name, src_any, dst_any, tier="quick"):
     if not dst_any:
       b.assume(b.Or(fi.dst_w == 0, fi.dst_w == 32))
     want = spec_matches(b, fi, pi)
-    return Case(of.ofp_match.matches_with_wildcards, [flow, pkt], {"consider_other_wildcards": False}, ensures={
+    def run(flow, pkt):
+      # the shifts make the evaluator case-split on the entry's prefix lengths first (concrete masks per case)
+      (1 << flow.get_nw_src()[1]) + (1 << flow.get_nw_dst()[1])
+      return flow.matches_with_wildcards(pkt, consider_other_wildcards=False)
+    return Case(run, [flow, pkt], ensures={
       "matches_iff_spec": lambda res: res == want,
     })
   u.__name__ = name
